@@ -96,7 +96,8 @@ class Monitor:
 
 # ------------------------------------------------------------------------------------------------ values
 
-K8 = ['None', '1', '1.0', '2', 'nan#1', 'nan#2', "'a'", 'dt']
+K8 = ['None', '1', '1.0', '2', 'nan#1', 'nan#2', "'a'", 'dt', "'aa'", "'b'"]      # the last two only in the `strings` suite
+KSTR = [6, 8, 9, 1]                   # 'a', 'aa', 'b', 1: strings of different lengths ('aa' < 'b' alphabetically, but longer)
 K6 = [0, 1, 2, 4, 5, 6]
 K4 = [1, 4, 5, 6]        # 1, nan#1, nan#2, 'a'
 K3 = [1, 4, 5]
@@ -116,6 +117,10 @@ def mk(i, nans):
         return 'a'
     if n == 'dt':
         return _DT
+    if n == "'aa'":
+        return 'aa'
+    if n == "'b'":
+        return 'b'
     return nans[n]
 
 
@@ -388,6 +393,35 @@ def check_spellings(case):
                   dict(op='xor', spelling='callable'))
     if not (_unchanged(x, sx) and _unchanged(y, sy)):
         out.viol('operand-mutated', '%s: an operand changed (shared-column tables)' % lab)
+    # --- a table joined with ITSELF on two different columns (k against q = k rotated by one row)
+    from pyg_base import dictable as _dd
+    kk = [t[0] for t in lk]
+    qq = kk[1:] + kk[:1]
+    xs = _dd(dict(k=list(kk), q=list(qq), v=list(range(len(kk)))))
+    sxs = _snap(xs)
+    exp_pairs = collections.Counter((i, j) for i in range(len(kk)) for j in range(len(kk)) if keq(kk[i], qq[j]))
+    out.sub(2)
+    ok, res = _call(out, "x.join(x, 'k', 'q') with k=%s q=%s" % (show(kk), show(qq)), lambda: xs.join(xs, 'k', 'q'), dict(op='join', spelling='self'))
+    if ok:
+        try:
+            got = collections.Counter(tuple(row['v']) for row in res) if (exp_pairs or len(res)) else collections.Counter()
+            if got != exp_pairs:
+                out.viol('join-wrong-pairs', "x.join(x, 'k', 'q') with k=%s q=%s: pairs %s, expected %s" % (show(kk), show(qq), sorted(got.elements()), sorted(exp_pairs.elements())),
+                         op='join', spelling='self', missing=bool(exp_pairs - got), extra=bool(got - exp_pairs))
+        except Exception as e:
+            out.viol('join-result-broken', "x.join(x, 'k', 'q'): %s: %s" % (type(e).__name__, e), op='join', spelling='self')
+    ok, res = _call(out, "x.xor(x, 'k', 'q') with k=%s q=%s" % (show(kk), show(qq)), lambda: xs.xor(xs, 'k', 'q'), dict(op='xor', spelling='self'))
+    if ok:
+        want = sorted(i for i in range(len(kk)) if not any(keq(kk[i], qq[j]) for j in range(len(kk))))
+        try:
+            gotx = sorted(res['v']) if (want or len(res)) else []
+            if gotx != want:
+                out.viol('xor-wrong-rows', "x.xor(x, 'k', 'q') with k=%s q=%s: rows %s, expected %s" % (show(kk), show(qq), gotx, want), op='xor', spelling='self',
+                         missing=bool(set(want) - set(gotx)), extra=bool(set(gotx) - set(want)))
+        except Exception as e:
+            out.viol('xor-result-broken', "x.xor(x, 'k', 'q'): %s: %s" % (type(e).__name__, e), op='xor', spelling='self')
+    if not _unchanged(xs, sxs):
+        out.viol('operand-mutated', 'self join changed the table')
     # --- different key names left/right
     x2, y2, lrows2, rrows2, _, _ = _tables(lk, rk, rkey='q')
     out.sub(2)
@@ -462,6 +496,8 @@ def suites(tier, seed):
                        rule='all pairs 0..2 x 0..1 rows over the 8-value domain x every key spelling (names, lists, tuple, different names, callable on '
                             'either side, None/auto, * and /, [] = cross product) x every mode (None,l,r,0,1,left,rhs,callable)',
                        bounds=dict(left_rows=2, right_rows=1)))
+        S.append(Suite('strings', lambda: gen_basic(KSTR, 3, 2), check_basic,
+                       rule="one key column over {'a','aa','b',1}: strings of different lengths, the longer one alphabetically smaller; all pairs 0..3 x 0..2 rows", bounds=dict(key_values=4)))
         S.append(Suite('keys2', lambda: gen_basic(K4, 2, 1, ncol=2), check_basic,
                        rule='two key columns over the 4-value sub-domain {1,nan#1,nan#2,a} (two NaN identities): all pairs 0..2 x 0..1 rows', bounds=dict(ncol=2)))
         S.append(Suite('keys3', lambda: gen_basic(K3, 1, 1, ncol=3), check_basic,
@@ -475,6 +511,8 @@ def suites(tier, seed):
                        bounds=dict(left_rows=4, right_rows=4, total_rows=7, key_values=6)))
         S.append(Suite('spellings', lambda: gen_spell(2, 2), check_spellings,
                        rule='all pairs 0..2 x 0..2 rows over the 8-value domain x every key spelling x every mode', bounds=dict(left_rows=2, right_rows=2)))
+        S.append(Suite('strings', lambda: gen_basic(KSTR, 3, 3), check_basic,
+                       rule="one key column over {'a','aa','b',1}: strings of different lengths; all pairs 0..3 x 0..3 rows", bounds=dict(key_values=4)))
         S.append(Suite('keys2', lambda: gen_basic(K4, 2, 2, ncol=2), check_basic,
                        rule='two key columns over {1,nan#1,nan#2,a}: all pairs 0..2 x 0..2 rows', bounds=dict(ncol=2)))
         S.append(Suite('keys3', lambda: gen_basic(K3, 2, 1, ncol=3), check_basic,
